@@ -7,7 +7,7 @@ from harness import core, py2lean, instantiate
 from harness.core import Outcome, f2b, b2f
 
 ID = "C19"
-LEAN_TARGETS = ["BeyondVerif.Props.C19", "BeyondVerif.Props.C19Geom"]
+LEAN_TARGETS = ["BeyondVerif.Props.C19", "BeyondVerif.Props.C19Geom", "BeyondVerif.Props.C19Kepler"]
 THEOREMS = [
     "BeyondVerif.C19.ltan_raan_inverse",
     "BeyondVerif.C19.ltan_raan_inverse_in_day",
@@ -30,6 +30,12 @@ THEOREMS = [
     "BeyondVerif.C19.lambert_newton_exit",
     "BeyondVerif.C19.lambert_newton_no_break",
     "BeyondVerif.C19.lambert_returns",
+    "BeyondVerif.C19.stumpff_identity",
+    "BeyondVerif.C19.lamA_sq",
+    "BeyondVerif.C19.lamDtheta_cos",
+    "BeyondVerif.C19.lambert_A_sq",
+    "BeyondVerif.C19.lambert_solves_universal_kepler",
+    "BeyondVerif.C19.lambert_solves_universal_kepler_dtheta",
     "BeyondVerif.C19.beta_arg_in_domain",
     "BeyondVerif.C19.beta_range",
     "BeyondVerif.C19.beta_is_elevation",
@@ -43,7 +49,8 @@ LEVEL_TEXT = ("Lean theorems over R about formulas translated from the Python so
               "of leo.sso; the node rate of propagators/j2.py and Infos.n; raan2ltan/ltan2raan; raan/nu of both Walker classes) and about hand-written models of the "
               "Lambert loops, the Walker generators, beta and bplane that are tied to the code by a differential correspondence run: LTAN<->RAAN are exact inverses modulo "
               "day / 2 pi for any sun angle; Walker fleets have t satellites, evenly spaced planes, phasing 2 pi f / t; sso is self-inverse and makes the J2 node rate equal "
-              "the solar rate; the Lambert velocities satisfy the f-g arrival relations with the universal-variable Lagrange coefficients whenever F(z) = 0 and the Newton "
+              "the solar rate; the Lambert velocities satisfy the f-g arrival relations with the universal-variable Lagrange coefficients whenever F(z) = 0, the returned "
+              "state (r0, v0) solves Kepler's universal equation for the requested time with z = alpha chi^2 (all four direction/way cases), and the Newton "
               "loop breaks only on convergence; beta is in [-pi/2, pi/2] and is the elevation above the orbit plane; S is the unit incoming-asymptote direction, (S,T,R) "
               "orthonormal, B perpendicular to S and h with |B| = |a| sqrt(e^2-1).")
 LEVEL_NOTE = ("R -> double gap covered only by tolerance-bounded correspondence (this gap is exactly where the two open findings live: NaN from a Newton overshoot, NaN from "
@@ -66,7 +73,7 @@ ASSUMPTIONS = [
 ]
 NOT_COVERED = [
     "existence and uniqueness of the Lambert root, termination of the 0.05 scan and convergence of the Newton iteration (hypotheses of the theorems; exercised by the oracle only)",
-    "that the universal-variable Lagrange coefficients are the two-body flow (classical result, C05's domain); the oracle propagates with an independent universal-variable Kepler solver and with the Kepler propagator",
+    "that the universal-variable formulation (Kepler's universal equation + Lagrange coefficients f, g) is the two-body flow (classical result, C05's domain; what IS proved: the returned state satisfies that equation for the requested time and r1 = f r0 + g v0); the oracle propagates with an independent universal-variable Kepler solver and with the Kepler propagator",
     "lamDF is the derivative of lamF (Newton would merely converge more slowly otherwise): not proved",
     "_mean_sun_raan / _true_sun_raan themselves (the theorems hold for an arbitrary sun angle), orb2ltan, sso_frozen / frozen, beta_limit, flyby (which references undefined names and cannot run)",
     "theta of the B-plane",
